@@ -116,10 +116,23 @@ func c15Config(rt *rapid.T, url string) map[string]any {
 	if rapid.Bool().Draw(rt, "notify") {
 		main["notification"] = map[string]any{"columns": []any{"memo", "amt"}}
 	}
+	igs := []any{ref, main}
+	if rapid.Bool().Draw(rt, "sharedtable") {
+		// a later integration writes to the same table and declares some of the same columns:
+		// mainig is then not the last word on the table's definition
+		late := map[string]any{
+			"name": "lateig", "enabled": true, "sources": []any{map[string]any{"name": "src1", "start": 1}},
+			"table": map[string]any{"name": "maint", "columns": []any{
+				map[string]any{"name": "tx_to", "type": "bytea"}, map[string]any{"name": "block_time", "type": "numeric"}, map[string]any{"name": "log_addr", "type": "bytea"}},
+				"index": []any{[]any{"tx_to"}}},
+			"block": []any{map[string]any{"name": "tx_to", "column": "tx_to"}, map[string]any{"name": "block_time", "column": "block_time"}},
+		}
+		igs = append(igs, late)
+	}
 	return map[string]any{
 		"pg_url": "postgres://x", "dashboard": map[string]any{"root_password": "pw"},
 		"eth_sources":  []any{map[string]any{"name": "src1", "chain_id": 7, "url": url, "batch_size": 2, "concurrency": 1, "poll_duration": "1h"}},
-		"integrations": []any{ref, main},
+		"integrations": igs,
 	}
 }
 
